@@ -131,6 +131,9 @@ fn check_simplex<const D: usize>(rep: &Report, cn: &Cn, base: &[[f64; D]], perms
     variants.push(("translated".into(), base.iter().map(|p| std::array::from_fn(|i| p[i] + shift[i])).collect(), 1.0));
     if D <= 3 {
         variants.push(("translated1024".into(), base.iter().map(|p| std::array::from_fn(|i| p[i] + 1024.0)).collect(), 1.0));
+        // far from the origin relative to the simplex size (distance / edge about 1e6): degeneracy thresholds that scale
+        // with vertex positions instead of edge lengths show up here; coordinates stay exactly representable
+        variants.push(("translated1048576".into(), base.iter().map(|p| std::array::from_fn(|i| p[i] + 1048576.0 * (1.0 + i as f64))).collect(), 1.0));
     }
     for s in [2f64.powi(10), 2f64.powi(-10)] {
         variants.push((format!("scaled{s:e}"), base.iter().map(|p| std::array::from_fn(|i| p[i] * s)).collect(), s));
